@@ -301,6 +301,38 @@ def check(run):
                   f'{what}: __hash__ gives {vrepr(ha)[:40]} / {vrepr(hb)[:40]} (must differ with the representation hash)', whash)
         run.evaluations += 2
 
+    # cells built one after the other in the same process: the hash of a cell is computed from ITS descriptors and data - two leaves whose padded
+    # data bytes coincide ('1' -> 0xC0 with the completion tag, '11000000' -> 0xC0 without) differ in d2 and must not share a hash
+    it = mk(prog)
+    la = cm.new_cell(it, cm.tvm_bits(it, BA([Seg(1, 'k', '1')])), [])
+    lb = cm.new_cell(it, cm.tvm_bits(it, BA([Seg(8, 'k', '11000000')])), [])
+    lc = cm.new_cell(it, cm.tvm_bits(it, BA([Seg(2, 'k', '11')])), [])
+    ha_, hb_, hc_ = (repr(it.vkey(x.attrs.get('_hash'))) for x in (la, lb, lc))
+    good = len({ha_, hb_, hc_}) == 3
+    run.check(good, 'D6', 'Cell.__init__[cells built earlier in the process]' if not good else 'history: leaves with equal padded data bytes',
+              f"leaves '1', '11000000', '11' built in turn: hash terms {'all different' if good else 'NOT all different: ' + ha_[:50] + ' / ' + hb_[:50] + ' / ' + hc_[:50]} (their data bytes are 0xC0, 0xC0, 0xE0; d2 = 1, 2, 1)", weq)
+    req2 = it.cmp(ast.Eq(), la, lb, None)
+    run.check(not (isinstance(req2, K) and req2.v is True), 'D6', 'Cell.__eq__[cells built earlier in the process]' if (isinstance(req2, K) and req2.v is True) else 'history: leaves compare by their own hash',
+              f"leaf '1' == leaf '11000000' gives {vrepr(req2)[:40]}", weq)
+    run.evaluations += 2
+    # two different prunings of one tree, built in turn: the same data, the same level mask, children with the same level-0 hashes and depths -
+    # but different level-1 hashes (the pruned child stands at another position)
+    it = mk(prog)
+    ca, cb = cm.forge_ordinary_child(it, 11, depth=0), cm.forge_ordinary_child(it, 12, depth=0)
+
+    def pruned_of(c_):
+        bits_ = BA([Seg(16, 'k', format(1, '08b') + format(1, '08b')), Seg(256, 'b', c_.attrs['_hash']), Seg(16, 'k', format(0, '016b'))])
+        return cm.new_cell(it, cm.tvm_bits(it, bits_), [], 1)
+    x1 = cm.new_cell(it, cm.tvm_bits(it, cm.data_bits(9, 'two')), [pruned_of(ca), cb])
+    x2 = cm.new_cell(it, cm.tvm_bits(it, cm.data_bits(9, 'two')), [ca, pruned_of(cb)])
+    t1, t2 = repr(it.vkey(x1.attrs.get('_hash'))), repr(it.vkey(x2.attrs.get('_hash')))
+    l01, l02 = cm.call_method(it, x1, 'get_hash', K(0)), cm.call_method(it, x2, 'get_hash', K(0))
+    good = t1 != t2 and repr(it.vkey(l01)) == repr(it.vkey(l02))
+    run.check(good, 'D6', 'Cell.__init__[another pruning of the same tree built earlier]' if not good else 'history: two prunings of one tree',
+              f'cell over (pruned A, B) and then cell over (A, pruned B): level-0 hashes {"equal" if repr(it.vkey(l01)) == repr(it.vkey(l02)) else "DIFFERENT"}, '
+              f'representation hashes {"different" if t1 != t2 else "THE SAME (" + t1[:60] + ")"} (they must differ: the pruned child is hashed by its own level-1 hash)', weq)
+    run.evaluations += 1
+
     # ---- D7 who may write, and construction routes
     protected = {'_hash', '_hashes', '_depths', 'level_mask', '_descriptors', '_data_bytes'}
     cell_cls = prog.cls('Cell')
